@@ -304,6 +304,8 @@ def c03(res, st, std_coq, lexer_correspondence):
     # C03_type_parser_terminates is about Parse/TypeModel.v: tie it to ParseType (the extracted model answers, never FUEL, on every input)
     type_correspondence(res, rnd, q)
     type_recover_correspondence(res, rnd, q)
+    # C03_statement_family_terminates / C03_comma_separated_lists_terminate are about Parse/StmtModel.v: tie it to the four entry points
+    stmt_family_correspondence(res, rnd, q)
     res.cov["rule"] = ("theorems: lexer/splitter totality for all byte strings (model), escape analysis over every path of the regenerated skeleton; "
                        "correspondence: lexer outcome class and error range in both modes on all strings of <= 4/5 symbols over the 24-symbol alphabet + "
                        "samples; implementation: every entry point (with a 3 s watchdog) on corpus mutations, token soups, lists, every malformed "
@@ -510,6 +512,8 @@ def sampled(res, st, std_coq, extra_vo=()):
         stmt_family_correspondence(res, rnd, q)
     if have and pid == "C11":
         stmt_family_correspondence(res, rnd, q)
+    if have and pid == "C05":
+        stmt_family_correspondence(res, rnd, q)      # C05_family_statement_starts_at_its_first_token is about Parse/StmtModel.v
     if have and pid in ("C05", "C06", "C08"):
         # the theorems are about Parse/ExprModel.v: tie it to ParseExpr (full trees, every position) and evaluate the theorems'
         # hypothesis input_okb on every token list the real lexer produced
